@@ -27,11 +27,19 @@ def _own_gathers(ctx: Ctx, f: FuncInfo) -> List[Node]:
 
 
 def _own_fields(ctx: Ctx, f: FuncInfo, g: Node, bind: Optional[Dict[str, Set[str]]] = None) -> Set[str]:
+    from .shared import _local_sources
+
     call = strip_cast(g.ast.value)
     out = set()
-    P = ctx.eff.paths(f)
     for a in call.args:
-        p = P.of(a)
+        inner = a.value if isinstance(a, ast.Starred) else a
+        if isinstance(inner, ast.Name) and inner.id in ctx.an.scope(g.func).defs and inner.id not in ctx.an.scope(g.func).params:
+            # a local collection: everything that flows into it
+            srcs = _local_sources(ctx, g.func, g.env, inner.id)
+            if srcs:
+                out |= {field_of(x) for x in srcs}
+                continue
+        p = ctx.path_at(g, a)
         if p is None:
             continue
         if bind is not None and p.startswith("<") and p.strip("<>[]") in bind:
@@ -47,7 +55,7 @@ def gathers(ctx: Ctx, f: FuncInfo, _depth: int = 0) -> List[Node]:
     if _depth > 2:
         return out
     P = ctx.eff.paths(f)
-    for n in ctx.distinct_sites(ctx.nodes(f, lambda n: n.op == "await" and n.awaited is not None and n.awaited.kind == "pkg")):
+    for n in ctx.distinct_sites(ctx.nodes(f, lambda n: n.op == "await" and n.awaited is not None and n.awaited.kind == "pkg" and n.inlined is None)):
         call = strip_cast(n.ast.value)
         for h in n.awaited.targets:
             if h.name in ("flush", "gather_and_close") or not ctx.in_pool(h):
